@@ -80,3 +80,32 @@ Example C09_nonvacuous_unsat :
   let s := range_check 6%nat 7%nat s0 in
   satb (rows s) (wval s) = false.
 Proof. vm_compute. reflexivity. Qed.
+
+(* completeness: a value below 2^nb with the accumulators the gadget computes satisfies every row *)
+From PlonkV Require Import Composer.RangeComplete.
+Theorem C09_range_complete : forall (PR : PrimeR) w nb base (asg : assignment) v,
+  (0 <= v < 2 ^ Z.of_nat nb)%Z -> (nb <= 254)%nat ->
+  asg W_ZERO = fzero -> asg w = F v ->
+  (if Nat.even nb then
+     forall j, (j < range_count nb)%nat -> asg (base + j)%nat = F (acc_Z v (range_count nb) j)
+   else
+     let top := (nb - 1)%nat in let lo := (v mod 2 ^ Z.of_nat top)%Z in
+     asg base = F lo /\
+     (forall j, (j < range_count top)%nat -> asg (S base + j)%nat = F (acc_Z lo (range_count top) j)) /\
+     asg (S base + range_count top)%nat = F (v / 2 ^ Z.of_nat top) /\
+     asg (S (S base + range_count top)) = F v) ->
+  block_sat (range_blk w nb base) asg.
+Proof. exact @range_complete. Qed.
+Check C09_range_complete : forall (PR : PrimeR) w nb base (asg : assignment) v,
+  (0 <= v < 2 ^ Z.of_nat nb)%Z -> (nb <= 254)%nat ->
+  asg W_ZERO = fzero -> asg w = F v ->
+  (if Nat.even nb then
+     forall j, (j < range_count nb)%nat -> asg (base + j)%nat = F (acc_Z v (range_count nb) j)
+   else
+     let top := (nb - 1)%nat in let lo := (v mod 2 ^ Z.of_nat top)%Z in
+     asg base = F lo /\
+     (forall j, (j < range_count top)%nat -> asg (S base + j)%nat = F (acc_Z lo (range_count top) j)) /\
+     asg (S base + range_count top)%nat = F (v / 2 ^ Z.of_nat top) /\
+     asg (S (S base + range_count top)) = F v) ->
+  block_sat (range_blk w nb base) asg.
+Print Assumptions C09_range_complete.
